@@ -60,15 +60,19 @@ theorem C01_table_one_arg : Generated.oneArgXforms =
      ("italic", cps (seq 3), cps (seq RESET_ALL)), ("underline", cps (seq 4), cps (seq RESET_ALL))] := by
   decide +kernel
 
-/-- the live `two_arg_xforms` lambdas, applied to every colour value of the live colour tables -/
+/-- the live `two_arg_xforms` lambdas, applied to every distinct colour VALUE of the live colour tables -/
 theorem C01_table_two_arg : Generated.twoArgXforms =
     (List.finRange 8).map (fun i => ("bg", bgCode i, cps (seq (bgCode i)), cps (seq RESET_BG))) ++
     (List.finRange 8).map (fun i => ("fg", fgCode i, cps (seq (fgCode i)), cps (seq RESET_FG))) := by
   decide +kernel
 
+/-- The reset codes are the model's; the colour tables' VALUES are exactly the eight foreground / background codes
+    of the model (a name table may give one code several names - aliases - without affecting `str(f)`, which only
+    ever sees the numeric value); the style table is the model's. -/
 theorem C01_table_consts : Generated.resetAll = RESET_ALL ∧ Generated.resetFg = RESET_FG ∧
-    Generated.resetBg = RESET_BG ∧ Generated.fgColors.map Prod.snd = (List.finRange 8).map fgCode ∧
-    Generated.bgColors.map Prod.snd = (List.finRange 8).map bgCode ∧
+    Generated.resetBg = RESET_BG ∧
+    (∀ p ∈ Generated.fgColors, ∃ i : Fin 8, p.2 = fgCode i) ∧ (∀ i : Fin 8, fgCode i ∈ Generated.fgColors.map Prod.snd) ∧
+    (∀ p ∈ Generated.bgColors, ∃ i : Fin 8, p.2 = bgCode i) ∧ (∀ i : Fin 8, bgCode i ∈ Generated.bgColors.map Prod.snd) ∧
     Generated.styles = [("bold", 1), ("dark", 2), ("italic", 3), ("underline", 4), ("blink", 5), ("invert", 7)] := by
   decide +kernel
 
